@@ -397,6 +397,9 @@ class MediaSegmentList(HTMLHandlerBase):
     decorators = [uses_media_file, uses_stream]
 
     def get(self, spk: int, mfid: int) -> flask.Response:
+        if current_media_file.representation is None:
+            return flask.make_response(
+                'This media file needs to be indexed', 404)
         context = self.create_context()
         start = 0
         segments = []
@@ -548,10 +551,21 @@ class MediaSegmentInfo(SegmentInfoBase):
         options = mp4.Options(lazy_load=False)
         if current_media_file.representation.encrypted:
             options.iv_size = current_media_file.representation.iv_size
-        with current_media_file.open_file(start=frag.pos, buffer_size=16384) as reader:
-            src = BufferedReader(
-                reader, offset=frag.pos, size=frag.size, buffersize=16384)
-            atom = mp4.Mp4Atom.load(src, options=options, use_wrapper=True)
+        try:
+            with current_media_file.open_file(start=frag.pos, buffer_size=16384) as reader:
+                src = BufferedReader(
+                    reader, offset=frag.pos, size=frag.size, buffersize=16384)
+                atom = mp4.Mp4Atom.load(src, options=options, use_wrapper=True)
+                # (boxes are parsed here, while the file is open)
+                for child in atom.children:
+                    child.toJSON()
+        except Exception as err:
+            logging.warning(
+                'Failed to parse segment %d of %s: %r', segnum,
+                current_media_file.name, err)
+            return flask.make_response(
+                f'Failed to parse segment {int(segnum)}: {html.escape(repr(err))}',
+                415)
         back_url = flask.url_for(
             'list-media-segments', spk=current_stream.pk, mfid=current_media_file.pk)
         full_title: str = f'Segment {segnum} in fille "{current_media_file.blob.filename}"'
